@@ -76,7 +76,8 @@ def classify_exc(e, tb, own_code=None):
             ):
                 return "rejected"
             # the bootstrap trampoline is renamed after the function: recognise it by its body
-            if code.co_filename.endswith("core.py") and code.co_names[:2] == ("compile", "dispatch"):
+            if code.co_filename.endswith("core.py") and code.co_freevars == ("ov",) and "dispatch" in code.co_names \
+                    and code.co_varnames[:2] == ("args", "kwargs"):
                 return "rejected"
             if code.co_filename.endswith("core.py") and code.co_name == "__call__":
                 return "rejected"
